@@ -205,8 +205,78 @@ impl<'a> Run<'a> {
     }
 }
 
+
+/// Long texts (tens of thousands of bytes, a megabyte in the thorough tier) and large numbers: positions,
+/// lengths and results computed here.
+fn scale(w: &mut Worker) {
+    let sizes: Vec<usize> = w.tier.pick(vec![300, 70_000], vec![300, 70_000, 1_000_000]);
+    for &n in &sizes {
+        for (unit, ub) in [("ab", 2usize), ("aé", 3usize)] {
+            // l = byte length of the doubled block once it reaches n
+            let mut l = ub;
+            while l < n {
+                l *= 2;
+            }
+            let text = format!(
+                "s = set {unit}\nlen = length ${{s}}\nwhile less_than ${{len}} {n}\ns = set ${{s}}${{s}}\nlen = length ${{s}}\nend\nt = set ${{s}}XYZ${{s}}\ntl = length ${{t}}\ni = indexof ${{t}} XYZ\nj = last_indexof ${{t}} XYZ\nk = last_indexof ${{t}} {unit}\nnone = indexof ${{t}} ZYX\nc1 = contains ${{t}} Z{first}\nc2 = contains ${{t}} ZZ\nst = starts_with ${{t}} {unit}{unit}\nen = ends_with ${{t}} {unit}\nsub = substring ${{t}} {l} {l3}\ntail = substring ${{t}} {l3}\ntaill = length ${{tail}}\nhead = substring ${{t}} -{l3}\nheadl = length ${{head}}\nr = replace ${{t}} XYZ \"\"\nrl = length ${{r}}\nparts = split ${{t}} XYZ\npn = array_length ${{parts}}\np0 = array_get ${{parts}} 0\np0l = length ${{p0}}\nrelease ${{parts}}\nup = uppercase ${{t}}\nupl = length ${{up}}\ntr = trim \"  ${{t}}  \"\ntrl = length ${{tr}}\ns = set done\nt = set done\nr = set done\np0 = set done\nup = set done\ntr = set done\ntail = set done\nhead = set done",
+                unit = unit,
+                n = n,
+                first = &unit[..1],
+                l = l,
+                l3 = l + 3
+            );
+            let upl = if unit == "ab" { 2 * l + 3 } else { 2 * l + 3 };
+            scale_case(
+                w,
+                &format!("long-text bytes {} unit {}", n, unit),
+                &text,
+                &[
+                    ("tl", Some((2 * l + 3).to_string())),
+                    ("i", Some(l.to_string())),
+                    ("j", Some(l.to_string())),
+                    ("k", Some((2 * l + 3 - ub).to_string())),
+                    ("none", None),
+                    ("c1", Some("true".into())),
+                    ("c2", Some("false".into())),
+                    ("st", Some("true".into())),
+                    ("en", Some("true".into())),
+                    ("sub", Some("XYZ".into())),
+                    ("taill", Some(l.to_string())),
+                    ("headl", Some(l.to_string())),
+                    ("rl", Some((2 * l).to_string())),
+                    ("pn", Some("2".into())),
+                    ("p0l", Some(l.to_string())),
+                    ("upl", Some(upl.to_string())),
+                    ("trl", Some((2 * l + 3).to_string())),
+                ],
+            );
+        }
+    }
+    // arithmetic and comparison on large magnitudes (within the 2^53 range that the floating point
+    // arithmetic of calc and of the comparisons represents exactly)
+    let text = "a = calc 4503599627370495 + 4503599627370496\nb = calc 94906265 * 94906265\nc = calc 9007199254740991 - 9007199254740990\nd = calc -9007199254740991 + 9007199254740990\nl1 = less_than 9007199254740990 9007199254740991\nl2 = less_than -9007199254740991 -9007199254740990\nl3 = less_than 9007199254740991 9007199254740990\ng1 = greater_than 9007199254740991 9007199254740990\ng2 = greater_than -9007199254740991 -9007199254740990\ne1 = equals 9007199254740991 9007199254740991";
+    scale_case(
+        w,
+        "large-numbers",
+        text,
+        &[
+            ("a", Some("9007199254740991".into())),
+            ("b", Some("9007199136250225".into())),
+            ("c", Some("1".into())),
+            ("d", Some("-1".into())),
+            ("l1", Some("true".into())),
+            ("l2", Some("true".into())),
+            ("l3", Some("false".into())),
+            ("g1", Some("true".into())),
+            ("g2", Some("false".into())),
+            ("e1", Some("true".into())),
+        ],
+    );
+}
+
 pub fn worker(w: &mut Worker) {
     let tier = w.tier;
+    scale(w);
     let tl = tier.pick(3usize, 7usize);
     let texts: Vec<String> = Strings::new(&SIG[..], 0, tl).map(|v| v.concat()).collect();
     let needles: Vec<String> = Strings::new(&SIG[..], 0, 2).map(|v| v.concat()).collect();
@@ -407,6 +477,9 @@ pub fn worker(w: &mut Worker) {
 }
 
 pub fn replay(case: &Value) -> Result<String, String> {
+    if let Some(r) = scale_replay(case) {
+        return r;
+    }
     let cmd = case["command"].as_str().ok_or("no command")?;
     let args: Vec<String> = case["args"]
         .as_array()
@@ -422,7 +495,7 @@ pub fn crash_sig(_case: &Value, kind: &str) -> String {
     kind.to_string()
 }
 
-pub const RULE: &str = "every text up to the length bound over {a b SP e-acute emoji} x every needle up to length 2 through length/strlen/is_empty/trim*/uppercase/lowercase/indexof/last_indexof/contains/starts_with/ends_with/equals/eq/concat/replace/split; substring with every index and index pair from -(len+2) to len+2 plus non-numeric junk; less_than/greater_than over a 21x21 number pool (incl. -0, -0.0, 0.0, 00, 1.0); calc over n op m, the same as one argument, and ( n op m ) op2 k with exactly representable results; range over the grid and non-numeric arguments. Oracle: Rust's own string operations in byte units, documented substring semantics (error result for out-of-range, non-boundary or non-numeric indexes; an index equal to the text length is left open), numeric order, exact arithmetic. Non-trivial: multi-byte text, negative/out-of-range/non-numeric index, non-integer number. states = distinct (command, result class, arity); transitions = real command invocations";
+pub const RULE: &str = "every text up to the length bound over {a b SP e-acute emoji} x every needle up to length 2 through length/strlen/is_empty/trim*/uppercase/lowercase/indexof/last_indexof/contains/starts_with/ends_with/equals/eq/concat/replace/split; substring with every index and index pair from -(len+2) to len+2 plus non-numeric junk; less_than/greater_than over a 21x21 number pool (incl. -0, -0.0, 0.0, 00, 1.0); calc over n op m, the same as one argument, and ( n op m ) op2 k with exactly representable results; range over the grid and non-numeric arguments. Oracle: Rust's own string operations in byte units, documented substring semantics (error result for out-of-range, non-boundary or non-numeric indexes; an index equal to the text length is left open), numeric order, exact arithmetic. Non-trivial: multi-byte text, negative/out-of-range/non-numeric index, non-integer number. states = distinct (command, result class, arity); transitions = real command invocations. Scale cases: texts of 300/70000 (thorough 1000000) bytes built from a one- and a multi-byte block around a marker: length, indexof, last_indexof, contains, starts/ends_with, substring forms, replace, split, uppercase, trim; calc / less_than / greater_than / equals at the edge of the exactly representable integers (2^53)";
 pub const ASSUMPTIONS: &[&str] = &["arguments are handed to the commands as already-bound values (run_instruction), so the parser is not in the loop", "division is only generated where the quotient is exact; number spellings such as 1e3 or ' 1' may be rejected or accepted but never mis-ordered"];
 pub const EXHAUSTIVE: bool = true;
 pub const WALL_CAP_S: (u64, u64) = (50, 1500);
